@@ -203,7 +203,7 @@ def make_twin(sig, contract, name):
     req = re.sub(r'\*?old\((\w+)\)', lambda mm: ('*' if mm.group(0).startswith('*') else '') + mm.group(1), req)
     head, params, ret, _ = T.split_sig(sig + ' {}')
     head = re.sub(r'\b(pub(\([a-z]+\))?|const|unsafe)\s+', '', head)
-    head = re.sub(r'\bfn\s+' + re.escape(name) + r'\b', 'proof fn ' + name + '__reach', head, count=1)
+    head = re.sub(r'\bfn\s+' + re.escape(name) + r'\b', 'proof fn reach__' + name, head, count=1)
     params = params.replace('&mut self', '&self').replace('&mut St', '&St')
     params = re.sub(r'\bmut\s+(\w+\s*:)', r'\1', params)
     return '%s(%s)\n  requires%s  ensures false\n{}\n' % (head.strip(), params, req.rstrip() + '\n')
